@@ -142,6 +142,32 @@ def cases():
     add("coll-title-def", "collision",
         root({"A": obj({"p": dict(obj({"z": I}), title="B")}), "B": obj({"q": S})}), note="C16-3")
     add("coll-title-root", "collision", root({"Foo": obj({"q": S})}, title="Foo", type="object", properties={"r": I}))
+    # a titled ROOT against the names of its own call (fix c22ef06 rejects root title = definition name)
+    add("root-title-eq-def", "collision", root({"Config": obj({"a": S})}, title="Config", type="object", properties={"r": I}),
+        note="must be rejected at add (c22ef06): root title = a definition name")
+    add("root-title-case-sep", "collision", root({"DiskConfig": obj({"a": S})}, title="disk-config", type="object", properties={"r": I}),
+        note="must be rejected at add (c22ef06): root title differs from the definition name by case / separators only")
+    add("root-title-no-type", "collision", root({"Config": obj({"a": S})}, title="Config"),
+        note="must be rejected at add (c22ef06): titled root without a body of its own")
+    add("root-title-enum-root", "collision", root({"Config": obj({"a": S})}, title="config", type="string", enum=["a", "b"]),
+        note="must be rejected at add (c22ef06): root is an enum")
+    add("root-title-ref-root", "collision", root({"Config": obj({"a": S})}, title="Config", **{"$ref": "#/definitions/Config"}),
+        note="must be rejected at add (c22ef06): root refers to the definition of its own name")
+    add("root-title-eq-inline-title", "collision",
+        root({"A": obj({"p": dict(obj({"z": I}), title="T")})}, title="T", type="object", properties={"r": I}),
+        note="root title = the title of an inline sub-schema of a definition: two items T (C16-3 shape with the root)")
+    add("root-title-eq-derived", "collision", root({"A": obj({"p": obj({"z": I})})}, title="AP", type="object", properties={"r": I}),
+        note="root title AP next to the derived name Ap of A.p: distinct identifiers")
+    add("root-title-distinct", "collision", root({"Config": obj({"a": S})}, title="Other", type="object", properties={"r": I}))
+    # inline sub-schema under a property whose name contributes nothing to the derived type name
+    add("inline-empty-suffix-underscore", "collision", root({"A": obj({"_": obj({"z": I})})}),
+        note="A._ inline object is named A ++ Pascal(_) = A: two items A")
+    add("inline-empty-suffix-empty-enum", "collision", root({"A": obj({"": {"type": "string", "enum": ["p", "q"]}})}),
+        note="A.\"\" inline enum is named A")
+    add("inline-empty-suffix-dash-root", "collision",
+        [{"op": "root", "doc": {"title": "TestType", "type": "object", "properties": {"-": obj({"z": I}), "k": S}}}],
+        note="same under a titled root")
+    add("inline-empty-suffix-scalar", "collision", root({"A": obj({"_": S, "": I})}, ), note="no inline type: fields x / x_... only")
     add("coll-title-same-two", "collision",
         root({"A": obj({"p": dict(obj({"z": I}), title="T"), "q": dict(obj({"y": S}), title="T")})}))
     add("coll-variant-types", "collision",
